@@ -274,6 +274,7 @@ def _flat_expr(tokens: list[Any], ctx: str, out: Flat) -> None:  # noqa: PLR0912
     after_pipe = False
     pending_colon = False
     skip: set[int] = set()
+    seg_tok = 0  # token index where the (possibly array-literal) left-hand expression starts
     for i, tok in enumerate(tokens):
         if i in skip:
             continue
@@ -301,7 +302,13 @@ def _flat_expr(tokens: list[Any], ctx: str, out: Flat) -> None:  # noqa: PLR0912
             c = "filter-args" if in_args else ctx
         if k == "COMMA":
             if not in_args:
-                continue  # optional / normalised by str() everywhere but in filter arguments
+                # optional / normalised by str() everywhere but in filter arguments - except
+                # the comma that makes a single primitive an array literal (`x = 'ab',`)
+                nxt = tokens[i + 1].type_.name if i + 1 < len(tokens) else "EOI"
+                if i - seg_tok == 1 and nxt in ("EOI", "PIPE", "DOUBLE_PIPE", "IF") \
+                        and ctx in ("OUTPUT", "echo", "assign", "for", "template-string"):
+                    out.append(("ARRAY_COMMA", ctx, ""))
+                continue
             if out and out[-1][0] in ("COMMA", "FILTER_COLON"):
                 continue  # leading / duplicate commas are legal and meaningless
             out.append(("COMMA", "filter-args", ""))
@@ -310,6 +317,10 @@ def _flat_expr(tokens: list[Any], ctx: str, out: Flat) -> None:  # noqa: PLR0912
             continue  # `when a or b` == `when a, b`
         if k == "ASSIGN":
             k = "COLON"
+            if ctx == "assign":
+                seg_tok = i + 1
+        if k == "IN" and ctx in ("for", "tablerow"):
+            seg_tok = i + 1
         if k == "LPAREN":
             j = _is_lambda_params(tokens, i)
             if j >= 0:
@@ -335,10 +346,14 @@ def _flat_expr(tokens: list[Any], ctx: str, out: Flat) -> None:  # noqa: PLR0912
         elif k == "WORD":
             if ctx in ("for", "tablerow") and tok.value == "continue" and out and out[-1][0] == "COLON":
                 out.append(("STRING", c, "continue"))  # `offset: continue` == `offset:'continue'`
+            elif ctx in ("for", "tablerow") and repr(tok.value) in _LOOP_ARGS:
+                out.append(("LOOP_KEYWORD", c, repr(tok.value)))  # not the variable ['limit']
             else:
                 out.append(("PATH", c, repr(tok.value)))
         elif k in ("INT", "FLOAT"):
             out.append((k, c, _num_text(k, tok.value)))
+        elif k == "NULL":
+            out.append((k, c, ""))  # nil == null
         else:
             out.append((k, c, getattr(tok, "value", "")))
     if in_args and out and out[-1][0] == "COMMA":
@@ -355,7 +370,7 @@ def _canon_loop_args(out: Flat, start: int) -> None:
     first = None
     while i < len(out):
         k, _, v = out[i]
-        if k == "PATH" and v in _LOOP_ARGS and i >= start + 3 and (
+        if k == "LOOP_KEYWORD" and i >= start + 3 and (
             v == "'reversed'" or (i + 1 < len(out) and out[i + 1][0] == "COLON")
         ):
             first = i
@@ -366,7 +381,7 @@ def _canon_loop_args(out: Flat, start: int) -> None:
     groups: list[list[tuple[str, str, str]]] = []
     for item in out[first:]:
         k, _, v = item
-        if k == "PATH" and v in _LOOP_ARGS and (not groups or len(groups[-1]) != 2 or groups[-1][1][0] != "COLON"):
+        if k == "LOOP_KEYWORD" and (not groups or len(groups[-1]) != 2 or groups[-1][1][0] != "COLON"):
             groups.append([item])
         elif groups:
             groups[-1].append(item)
@@ -1103,7 +1118,7 @@ def _units(spec: dict[str, Any], ctx: Ctx) -> None:
         if ui % 8 == 7:
             kind = "shopify-tilde" if shop else "std-minus"
         kinds = [kind]
-        if lab == "wc":
+        if lab in ("wc", "branch"):
             # whitespace-control units also under non-default default_trim settings, where an
             # explicit `+` is not the same as no marker
             kinds = ["shopify", "shopify-minus", "shopify-tilde"]
@@ -1159,7 +1174,7 @@ def _compose(spec: dict[str, Any], ctx: Ctx) -> None:
 def shards(tier: str, seed: int) -> list[dict[str, Any]]:
     specs: list[dict[str, Any]] = []
     if tier == "quick":
-        nc, nu, nz, count = 2, 9, 5, 260
+        nc, nu, nz, count = 1, 10, 4, 325
     else:
         nc, nu, nz, count = 4, 16, 44, 1500
     for i in range(nc):
@@ -1188,6 +1203,7 @@ def floors(tier: str) -> dict[str, int]:
         "state_compared": 800 * (1 if tier == "quick" else 6),
         "state_cases_rendering": 250,
         "set:state_paths": 16,
+        "xproc_pickles": 300,
     }
 
 
@@ -1208,7 +1224,7 @@ def run_shard(spec: dict[str, Any], ctx: Ctx) -> None:
 def replay(wit: dict[str, Any], ctx: Ctx) -> None:
     case = Case(wit.get("kind", "std"), wit["source"], wit.get("templates") or {}, wit.get("subject", ""),
                 wit.get("datas") or [{}])
-    if wit.get("check") == "state":
+    if wit.get("check") in ("state", "xproc"):
         from .. import c12_state
 
         c12_state.replay(wit, ctx)
